@@ -201,7 +201,7 @@ def run_root(els, objs):
 def observe(els, objs, run=True):
     obs = [observe_element(e["k"], o) for e, o in zip(els, objs)]
     rt = None
-    if run:
+    if run and exact_runtime(els):
         try:
             rt = run_root(els, objs)
         except Exception as exc:     # noqa
@@ -335,8 +335,8 @@ def compare(els, exp, obs, rt):
 
 
 def exact_runtime(els):
-    """Two Cache elements may name the same file and then feed each other (that is C18's
-    subject): with more than one Cache only the no-leak rule is checked on the run-time side."""
+    """Two Cache elements may name the same file and then feed or block each other (that is
+    C18's subject): a pipeline with more than one Cache is not run."""
     return sum(1 for e in els if e["k"] == "cache") <= 1
 
 
@@ -384,8 +384,8 @@ def record(els, obs, rt):
                 row["has"] = False
         rows.append(row)
     return {"els": els, "obs": rows,
-            "ran": isinstance(rt, list),
-            "rtx": exact_runtime(els),
+            "ran": rt is None or isinstance(rt, list),
+            "rtx": isinstance(rt, list),
             "rt": [enc(c) for c in rt] if isinstance(rt, list) else [],
             "only": 0}
 
